@@ -20,7 +20,7 @@ for d in sorted(glob.glob('/verif/seeded/C*-*'), key=lambda x: (x.split('/')[-1]
     rows.append(f"| {name} | {rnd} | {summ} | {caught} | {kind} |")
     metas.append((name, caught))
 table = "\n".join([BEGIN,
-                   f"{len(rows)} seeded changes; {sum(1 for _, c in metas if not c.lower().startswith('not'))} reported as `VIOLATION` (exit 1, counterexample replayed natively) by the quick check of their property on a scratch worktree of /repo HEAD.",
+                   f"{len(rows)} seeded changes; {sum(1 for _, c in metas if not c.lower().startswith('not'))} reported as `VIOLATION` (exit 1, counterexample replayed natively) by the quick check of their property (C03-9: of C15) on a scratch worktree of /repo HEAD at the time; two of them (C03-1, C10-1) stopped being breaking changes when a later `fix:` commit removed the weakness they used.",
                    "", "| change | round | what it does | caught by (quick) | first violation kind |", "|---|---|---|---|---|"] + rows + [END])
 p = '/verif/DESIGN.md'
 s = open(p).read()
